@@ -22,7 +22,7 @@ from types import TracebackType
 from typing import Callable, Optional, Union
 
 from sqlfluff.core import FluffConfig, Linter
-from sqlfluff.core.errors import SQLFluffSkipFile
+from sqlfluff.core.errors import SQLFluffSkipFile, SQLFluffUserError
 from sqlfluff.core.linter import LintedFile, RenderedFile
 from sqlfluff.core.linter.common import DeferredRenderTask
 from sqlfluff.core.plugin.host import is_main_process
@@ -98,8 +98,9 @@ class BaseRunner(ABC):
 
     @staticmethod
     def _handle_lint_path_exception(fname: Optional[str], e: BaseException) -> None:
-        if isinstance(e, IOError):
-            # IOErrors are caught in commands.py, so propagate it
+        if isinstance(e, (IOError, SQLFluffUserError)):
+            # IOErrors and user errors are caught in commands.py, so
+            # propagate them (regardless of which runner is in use).
             raise (e)  # pragma: no cover
         linter_logger.warning(
             f"""Unable to lint {fname} due to an internal error. \
